@@ -73,6 +73,21 @@ def mk_vinfo(bvv, st):
     return bvv.V2VersionInfo(**kw)
 
 
+def year_in_range(names, date):
+    return all(not ((any(n in names for n in two) and not 2001 <= y <= 2099) or (four in names and not 1000 <= y <= 9999))
+               for two, four, y in ((("YY", "0Y"), "YYYY", date.year), (("GG", "0G"), "GGGG", date.isocalendar()[0])))
+
+
+def pytag_not_separately_optional(seq, depth=0):
+    """PYTAG (whose recogniser has no alternative for a final release) at top level, or in a group together with
+    other parts / groups that can force the group to be rendered."""
+    here = [n for n in seq if n[0] == "part"]
+    if any(n[1] == "PYTAG" for n in here):
+        if depth == 0 or any(n[1] not in ("PYTAG", "NUM") for n in here) or any(n[0] == "opt" for n in seq):
+            return True
+    return any(pytag_not_separately_optional(n[1], depth + 1) for n in seq if n[0] == "opt")
+
+
 def classify_bumped(names, old, fl, st, what):
     if old.get("tag") == "final" and fl.get("tag") == "final" and fl.get("tag_num") and "NUM" in names:
         return "final_tag_with_tag_number:" + what
@@ -250,6 +265,32 @@ def run_case(ctx, case):
             fl["tag"], fl["tag_num"] = R.choice(["final", "final", rs[1]["tag"]]), True
         date = d + dt.timedelta(R.choice(gen.DATE_OFFSETS))
         c = {"kind": "bumped", "seed": case["seed"]}
+        # library level: what incr() itself returns is "the text bumpver renders" for the bumped state. The CLI has a
+        # safety net behind it (_is_valid_version), so an unreadable rendering is refused there - but it is still a
+        # rendering its own recogniser rejects. Not counted: a final release under a pattern whose tag part is not
+        # separately optional (PYTAG has no text for a final release, so that state has no rendering at all).
+        try:
+            lib = harness.call(v2v.incr, rs[0], p, maybe_date=date, **fl)
+        except OverflowError:
+            lib = None
+        if lib is not None and year_in_range(names, date):
+            ctx.counters["library_incr_results"] += 1
+            try:
+                harness.call(v2v.parse_version_info, lib, p)
+            except bvv.PatternError as ex:
+                new_tag = fl.get("tag") or rs[1]["tag"]
+                if new_tag == "final" and pytag_not_separately_optional(ast):
+                    ctx.count("final_release_under_mandatory_tag_part")
+                else:
+                    try:
+                        mst = ref.bump_state(ast, rs[1], date, **fl) or {}
+                    except OverflowError:
+                        mst = {}
+                    if mst and ref.render(ast, mst) != lib:
+                        mst = {}
+                    ctx.violation(classify_bumped(names, rs[1], fl, mst, "not-recognised"),
+                                  f"incr({rs[0]!r}, {p!r}, {fl}, date={date}) returned {lib!r}, which its own recogniser "
+                                  f"rejects: {str(ex)[:100]}", case=c)
         args = ["test", rs[0], p] + gen.flags_to_args(fl, date)
         res = harness.invoke(args)
         if res.exit_code != 0:
@@ -258,8 +299,7 @@ def run_case(ctx, case):
             ctx.count("bumped_refused")
             raise harness.Skip("refused")
         new = res.stdout_value("New Version: ")
-        y_ok = all(not ((any(n in names for n in two) and not 2001 <= y <= 2099) or (four in names and not 1000 <= y <= 9999))
-                   for two, four, y in ((("YY", "0Y"), "YYYY", date.year), (("GG", "0G"), "GGGG", date.isocalendar()[0])))
+        y_ok = year_in_range(names, date)
         if not y_ok:
             raise harness.Skip("year-outside-documented-range")
         what = f"bumpver {' '.join(args)}"
